@@ -27,10 +27,13 @@ var bodyGen = rapid.OneOf(
 	rapid.Just(""), rapid.Just("SELECT 1"), rapid.Just("INSERT INTO t VALUES"),
 	rapid.Map(rapid.SliceOfN(rapid.Byte(), 1, 40), func(b []byte) string { return string(b) }),
 	rapid.Map(rapid.IntRange(200, 5000), func(n int) string { return strings.Repeat("SELECT /*pad*/ ", n/15) }),
+	rapid.Map(rapid.SampledFrom([]int{127, 128, 129, 16383, 16384, 131_072, 200_000}), func(n int) string { return strings.Repeat("x", n) }),
 )
 
-var shortStr = rapid.OneOf(rapid.Just(""), rapid.StringMatching(`[a-z0-9_-]{1,10}`),
-	rapid.Map(rapid.SliceOfN(rapid.Byte(), 1, 12), func(b []byte) string { return string(b) }))
+var shortStr = rapid.OneOf(rapid.Just(""), rapid.StringMatching(`[a-z0-9_-]{1,10}`), rapid.StringMatching(`[a-z0-9_-]{1,10}`),
+	rapid.Map(rapid.SliceOfN(rapid.Byte(), 1, 12), func(b []byte) string { return string(b) }),
+	// lengths on the boundaries of the uvarint length prefix
+	rapid.Map(rapid.SampledFrom([]int{127, 128, 129, 16383, 16384}), func(n int) string { return strings.Repeat("k", n) }))
 
 var settingKeyGen = rapid.StringMatching(`[a-z_]{1,14}`)
 
